@@ -254,9 +254,11 @@ NoReport ==
 \* The scenario hung until the watchdog killed the children.  holders = the pipe inodes each child
 \* held on descriptors above 2.  A child holding an end of a library-created pipe there is the leak
 \* that explains the hang (the launch-status pipe never closes / end-of-file never arrives).
-Watchdog(inos) ==
-  /\ IF inos \cap libpipes # {}
-     THEN viol' = viol \cup {"C08_eof_not_propagated", "C07_launch_hangs", "C05_hang"} /\ sanity' = sanity
+\* self = the library was blocked reading a pipe whose writing end its own process still held (a descriptor it lost track
+\* of): the launch could never have returned.
+Watchdog(inos, self) ==
+  /\ IF inos \cap libpipes # {} \/ self
+     THEN viol' = viol \cup {"C08_eof_not_propagated", "C07_launch_hangs", "C05_hang", "C01_launch_never_returns"} /\ sanity' = sanity
      ELSE viol' = viol /\ sanity' = sanity \cup {"watchdog_without_explanation"}
   /\ UNCHANGED <<cfg, base, pre, ptab, ctab, forked, nforks, execd, didExec, attempts, libpipes, maxAllocs, res,
                  reported, penv, pcwd, pass, parentStdTouched>>
